@@ -85,6 +85,32 @@ CLAIMS = {
          "Ref.MarshalJSON (trusted). Not decided: history independence of whole results (same answer after any sequence of other inputs), "
          "immutability of returned ASTs and of the shared virtual 'any' node.",
          "5 C10", "weakest-precondition VCs over go/ssa + SMT; ghost ownership sets for the buffer pools"),
+ "C01": ("Partial (the rule semantics, one rule at a time). Each literal validator is proved to accept exactly the values its documented rule admits: "
+         "Min/Max.Validate accept iff json.NewNumber parses the value text and the exact order of the denoted decimals (numOrder, the C13 comparator "
+         "contract; the parsed Number denotes exactly the decimal written in the text by the C13 value-preservation proof) satisfies >= / > / <= / < "
+         "according to the exclusive flag; Precision.Validate iff the normal-form fraction length is at most the rule value; MinLength/MaxLength iff "
+         "the decoded length (quotes removed, escapes decoded by the verified copy of encoding/json's decoder) is within the bound; MinItems/MaxItems on the "
+         "child count; Const iff the decoded strings are equal; Enum iff some item has the same classified value (type + decoded text), with items kept "
+         "pairwise distinct by Append. The constructors parse rule values exactly (C04). Not decided: that Check() applies these validators to every example "
+         "value of the schema and of every registered type (checker/loader pipeline), regex and the built-in string formats (external libraries), "
+         "or-alternatives, type references, nullable.",
+         "5 C01", "weakest-precondition VCs over go/ssa + SMT; return/panic-exit assertions bound to the callee results"),
+ "C17": ("Partial (item classification and decoding). constraint.NewEnumItem (inline enum) and rules/enum.newEnumItem (enum rule file) are proved to compute "
+         "the same function of the item text: blanks trimmed on both sides (TrimSpaces proved exact), JSON kind = literalTypeOf(text) via json.GuessData whose "
+         "IsString/IsBoolean/IsNull/IsInteger/IsFloat/IsShortcut/JsonType are proved equal to text-level predicates (integer/float split by the parser's verdict and "
+         "normal-form fraction length, the same predicates the schema-side guesser is proved against: lemma guessersAgree), value = decoded string for strings and the "
+         "literal text otherwise; Enum.Append keeps items distinct as (kind, value) pairs and panics exactly on a member of its index; Enum.Validate accepts iff an "
+         "item equals the classified value. Not decided: the enum rule scanner's language (bracketed comma-separated list, annotations, no exponent numbers), "
+         "Values() order, and that `enum: @name` gives the same verdict and example as the inline list (loader pipeline).",
+         "5 C17", "weakest-precondition VCs over go/ssa + SMT; definitional spec functions (numparses, normfrac, unq_str) tied to the verified parsers"),
+ "C09": ("Partial. Proved: GuessSchemaType and json.GuessData classify a text by a function of the text alone (exact text-level specification, fixed test order, no map "
+         "iteration); no format in errs.errorFormat uses a verb that prints structures or addresses (const-evaluated table obligation). Closed-list obligation: every "
+         "`range` over a Go map in the module is either order-insensitive by the shape of its loop (clear / copy under the range key / collect-then-sort, no early exit; "
+         "decided on the SSA) or on a reviewed list whose entries are reported as assumptions; a new or changed map range fails until reviewed. Two order-dependent sites "
+         "found this way were genuine defects and are fixed (CheckRootSchema, CompileAllOf). The insertion-order behaviour of the ordered maps is claimed under C19. Not decided: "
+         "address-derived names of unnamed types (`#%p`) reaching an error message, independence from the order of AddType/AddRule calls as a whole-history property, the "
+         "loader invariant the reviewed entries rely on.",
+         "5 C09", "weakest-precondition VCs over go/ssa + SMT for the classifiers; SSA shape analysis + reviewed closed list for map iteration (the list is an assumption, labelled as such)"),
 }
 
 NOT_APPLICABLE = {
